@@ -170,6 +170,9 @@ func run(c *core.Ctx) {
 	for _, m := range fullBig {
 		each("models=1/big", []ModelSpec{m})
 	}
+	// one mesh whose payload exceeds 32 MiB (both containers)
+	each("models=1/huge", []ModelSpec{{Mesh: "H", Mat: "-", TRS: "-", Inst: 0}})
+	c.Bound("menu.meshes.huge", fmt.Sprintf("H: %d positions (%d bytes of payload)", hugeN, hugeN*12))
 	// value ladder: every float32 magnitude band through every component of POSITION (and its declared
 	// min/max), NORMAL and TEXCOORD_0 of a welded two-triangle mesh and of a point cloud
 	for r := range f32Ladder {
